@@ -39,7 +39,7 @@ def runCase (prop : String) (lines : List String) : String × Bool × Bool :=
     | some (name, st) => (true, name, st)
     | none => (false, "faithful", replay lines Cfg.faithful false false)
   let (lineNo, kdetail) := match st.bad with | some (ln, d) => (ln, d) | none => (0, "")
-  let o := oracle prop lines
+  let o := oracle prop lines st.w.cov
   let cov := ",".intercalate (st.w.cov.reverse ++ o.cov)
   let detail := if !o.ok then o.detail else kdetail
   let oline := if o.ok then 0 else o.line
